@@ -11,7 +11,7 @@ WT=/tmp/ev/$NAME; VC=/tmp/ev/$NAME.verif; LOG=/tmp/ev/$NAME.log
 export GOFLAGS=-mod=mod GOPROXY=off
 mkdir -p /tmp/ev
 git -C /repo worktree remove --force $WT 2>/dev/null; rm -rf $WT $VC
-git -C /repo worktree add -q --detach $WT HEAD || exit 2
+git -C /repo worktree add -q --detach $WT ${BASE:-HEAD} || exit 2
 cd $WT
 DEMOREL=$(sed -n 1p $SD/demo_cmd.txt | tr -d ' \r`')
 CMD=$(sed -n 2p $SD/demo_cmd.txt | tr -d '\r`')
